@@ -136,11 +136,14 @@ def check_sys_path_modifications(module_context):
 
 
 def discover_buildout_paths(inference_state, script_path):
-    buildout_script_paths = set()
+    # A list and not a set: the order ends up in the sys path of the script and
+    # must not depend on hashing.
+    buildout_script_paths = []
 
     for buildout_script_path in _get_buildout_script_paths(script_path):
         for path in _get_paths_from_buildout_script(inference_state, buildout_script_path):
-            buildout_script_paths.add(path)
+            if path not in buildout_script_paths:
+                buildout_script_paths.append(path)
             if len(buildout_script_paths) >= _BUILDOUT_PATH_INSERTION_LIMIT:
                 break
 
